@@ -558,6 +558,12 @@ def run(c, prog, ctx):
                 f2 = prog.fns[d]
                 fh.write("%s\t%s\t%d\t%s\t%s\n" % (d, key, n, where, reach.get(d)))
     _alloc(c, prog, reach)
+    # the reviewed-table entries of Address::from_script are discharged *under* Script::is_p2pkh/is_p2sh/is_v0_p2wpkh/is_v0_p2wsh/
+    # is_v1plus_p2witprog; the bounds they quote are those predicates' truth tables, decided by C16's R1.template-table and
+    # evaluated here as well (a predicate that accepts more scripts makes the guarded index or subtraction reachable)
+    from . import c16 as _c16
+    PRED = ("is_p2pkh", "is_p2sh", "is_v0_p2wpkh", "is_v0_p2wsh", "is_v1plus_p2witprog", "is_witness_program")
+    c.borrow(_c16, "C16", prog, ctx, lambda rule, k: rule == "R1.template-table" and k.rsplit("|", 1)[1] in PRED, "R1.guard-predicate-table", 5)
     c.floor("R1.discharged-D4", 100, "byte-length sums in encoders")
     c.floor("R1.discharged-D0", 40, "constant-safe sites")
 
